@@ -1,5 +1,4 @@
 \* GENERATED by gen_tokparam_cfgs.py
-\* 4+8: the resume point exactly at a token cannot occur (a="" is already eoh), ResumeEqFresh holds.
 \* Stable is not checked: POptInputEndF (8) declares the end of the buffer to be the end of the input, so a
 \* verdict on a prefix is by construction not the verdict on an extension, e.g. " " -> (eoh,1) but
 \* " \n" -> (eoh,2); "a" -> (eoh,1) with Name=[0,1] but "aa" -> (eoh,2) with Name=[0,2].
